@@ -1,1 +1,22 @@
-fn main(){}
+//! lv-grpc: dispatcher. One module per property; each exposes `pub fn run(ctx: &mut Ctx)`.
+use lv_common::{Ctx, parse_args};
+
+mod c43;
+mod c44;
+mod c45;
+
+fn main() {
+    let args = parse_args();
+    let level = "exploration";
+    let mut ctx = Ctx::from_args(&args, level);
+    match args.prop.as_str() {
+        "C43" => c43::run(&mut ctx),
+        "C44" => c44::run(&mut ctx),
+        "C45" => c45::run(&mut ctx),
+        other => {
+            eprintln!("lv-grpc: unknown property {other}");
+            std::process::exit(2);
+        }
+    }
+    ctx.finish();
+}
